@@ -438,9 +438,10 @@ def formatNearZeroLiteral (cap : Nat) (raw expText : Str) (negative : Bool) : St
 
 def isExpMarker (c : Char) : Bool := c == 'e' || c == 'E'
 
-/-- The exponent-notation part of `format_number_jq_compat` once `s.parse::<f64>()` succeeded with
-class `cls`; `raw`/`expText` are the text before/after the first `e|E`. -/
-def formatExpLiteral (cap : Nat) (cls : FClass) (negative : Bool) (raw expText : Str) : Str :=
+/-- The exponent-notation part of `format_number_jq_compat_with` once `s.parse::<f64>()` succeeded
+with class `cls`; `raw`/`expText` are the text before/after the first `e|E`; `preview` =
+`cap_scientific_mantissa` (true only for `format_number_jq_compat_preview`). -/
+def formatExpLiteral (cap : Nat) (preview : Bool) (cls : FClass) (negative : Bool) (raw expText : Str) : Str :=
   match cls with
   | .inf | .nan => formatOverflowLiteralMantissa cap raw expText negative
   | .zero => formatNearZeroLiteral cap raw expText negative
@@ -459,10 +460,14 @@ def formatExpLiteral (cap : Nat) (cls : FClass) (negative : Bool) (raw expText :
           else none
         match plain with
         | some p => p
-        | none => assembleScientific sign n.mantissaStr shiftedExp
+        | none =>
+          if preview then assembleScientific sign n.mantissaStr shiftedExp
+          else
+            assembleScientific sign (fullMantissaIfCapped cap raw expText n.mantissaStr n.digitCount) shiftedExp
 
-/-- `format_number_jq_compat(raw)` for valid UTF-8 input; `cap` = `MAX_RENDERED_MANTISSA_DIGITS`. -/
-def formatNumberJqCompat (cap : Nat) (s : Str) : Str :=
+/-- `format_number_jq_compat_with(raw, cap_scientific_mantissa)` for valid UTF-8 input;
+`cap` = `MAX_RENDERED_MANTISSA_DIGITS`. -/
+def formatNumberJqCompatWith (cap : Nat) (preview : Bool) (s : Str) : Str :=
   let hasExp := s.contains 'e' || s.contains 'E'
   if !hasExp then stripInsignificant s
   else
@@ -471,7 +476,13 @@ def formatNumberJqCompat (cap : Nat) (s : Str) : Str :=
     | cls =>
       let raw := s.takeWhile (fun c => !isExpMarker c)
       let expText := (s.dropWhile (fun c => !isExpMarker c)).drop 1
-      formatExpLiteral cap cls (isNegativeLit s) raw expText
+      formatExpLiteral cap preview cls (isNegativeLit s) raw expText
+
+/-- `format_number_jq_compat(raw)`: real output, never truncates a finite literal. -/
+def formatNumberJqCompat (cap : Nat) (s : Str) : Str := formatNumberJqCompatWith cap false s
+
+/-- `format_number_jq_compat_preview(raw)`: bounded error-message previews. -/
+def formatNumberJqCompatPreview (cap : Nat) (s : Str) : Str := formatNumberJqCompatWith cap true s
 
 /-! ### `OwnedValue::from_number_bytes` → `to_json` -/
 
